@@ -187,6 +187,12 @@ def rdParam : Rd Param := do
   let ty ← rdTy
   pure { name, var, ty, obj }
 
+def rdLocal : Rd Local := do
+  let name ← hexw
+  let hi ← flag
+  let ty ← rdTy
+  pure { name, ty, init := if hi then some (.ident "E") else none }
+
 def esc (s : List Char) : String :=
   String.ofList (s.flatMap fun c => if c = '\n' then ['\\', 'n'] else if c = '\\' then ['\\', '\\'] else [c])
 
@@ -215,6 +221,15 @@ def handle (line : String) : String :=
     match rdTy.run rest with
     | some (t, []) => "D " ++ " ".intercalate ((tyToks t).map dtokStr)
     | _ => "bad-op"
+  | "locals" :: n :: rest =>
+    match n.toNat? with
+    | some n =>
+      match (rep n rdLocal).run rest with
+      | some (ls, []) =>
+        let back := (parseLocals (ls.length + 64) (localsToks ls ++ [.kw "X"])).map (·.1)
+        "D " ++ " ".intercalate ((localsToks ls).map dtokStr) ++ (if back == some ls then " | roundtrip-ok" else " | roundtrip-differs")
+      | _ => "bad-op"
+    | none => "bad-op"
   | "args" :: n :: rest =>
     match n.toNat? with
     | some n =>
